@@ -23,6 +23,7 @@ type Env struct {
 	header *ssa.BasicBlock
 	pkg    string
 	depth  int
+	bound  map[string]bool // quantifier-bound names
 }
 
 func (e *Env) with(st *State) *Env {
@@ -33,6 +34,10 @@ func (e *Env) with(st *State) *Env {
 
 func (e *Env) bind(name string, v Val) *Env {
 	n := *e
+	n.bound = map[string]bool{name: true}
+	for k := range e.bound {
+		n.bound[k] = true
+	}
 	n.vars = make(map[string]Val, len(e.vars)+1)
 	for k, x := range e.vars {
 		n.vars[k] = x
@@ -264,6 +269,20 @@ func (env *Env) ident(name string) Val {
 		return sc("false", types.Typ[types.Bool])
 	case "nil":
 		return Val{K: VScalar, T: "0", Typ: types.Typ[types.UntypedNil]}
+	}
+	if env.fr != nil && env.header != nil {
+		// in a loop invariant a loop-carried variable shadows the parameter of the same source name
+		for _, ins := range env.header.Instrs {
+			phi, ok := ins.(*ssa.Phi)
+			if !ok {
+				break
+			}
+			if phi.Comment == name {
+				if _, bound := env.bound[name]; !bound {
+					return env.fr.vals[phi]
+				}
+			}
+		}
 	}
 	if v, ok := env.vars[name]; ok {
 		return v
@@ -1041,6 +1060,15 @@ func (env *Env) callExpr(x *ECall) Val {
 				vars = append(vars, v)
 			}
 			c.emit(fmt.Sprintf("(assert (forall (%s) (! (< (birth (uf$%s %s)) now0) :pattern ((uf$%s %s)))))", strings.Join(decl, " "), name, strings.Join(vars, " "), name, strings.Join(vars, " ")))
+		}
+		if cl := classOf(rt); cl == CStruct || cl == CSlice || cl == CIface || cl == CUPtr || cl == CSmallArr {
+			tmpl := c.zeroVal(rt)
+			var out []string
+			for i, s := range flatSorts(tmpl) {
+				out = append(out, c.ufApp(fmt.Sprintf("uf$%s.%d", name, i), ts, ss, s))
+			}
+			p := 0
+			return rebuild(tmpl, out, &p)
 		}
 		return sc(c.ufApp("uf$"+name, ts, ss, scalarSort(rt)), rt)
 	}
